@@ -19,7 +19,7 @@ MAX_STEPS = 160
 
 BEHAVIOURS = ("value", "none", "callresult", "unserializable", "oversized", "raise-app", "raise-mapped", "raise-unmapped",
               "raise-unserializable-args", "pending-ok", "pending-fail", "pending-forever", "progress-then-value",
-              "coroutine-ok", "coroutine-fail", "pending-absorbs-cancel")
+              "coroutine-ok", "coroutine-fail", "pending-absorbs-cancel", "pending-cancel-raises-app")
 
 
 class Unserializable:
@@ -160,7 +160,7 @@ class World(StackWorld):
             if b != "pending-forever":
                 self.user_futs.append(inv)
             return f
-        if b in ("coroutine-ok", "coroutine-fail", "pending-absorbs-cancel"):
+        if b in ("coroutine-ok", "coroutine-fail", "pending-absorbs-cancel", "pending-cancel-raises-app"):
             return self.async_endpoint(inv, b)
         if b == "progress-then-value":
             if details is not None and details.progress is not None:
@@ -179,6 +179,12 @@ class World(StackWorld):
             from twisted.internet import defer
             if b == "pending-absorbs-cancel":
                 f = defer.Deferred(canceller=lambda d: d.callback(inv.value))
+                inv.user_future = f
+                self.user_futs.append(inv)
+                return f
+            if b == "pending-cancel-raises-app":
+                # a cancellation-aware endpoint: on INTERRUPT it fails with its own application error
+                f = defer.Deferred(canceller=lambda d: d.errback(self.cancel_error()))
                 inv.user_future = f
                 self.user_futs.append(inv)
                 return f
@@ -201,8 +207,18 @@ class World(StackWorld):
                 except asyncio.CancelledError:
                     world.run.probe("endpoint-absorbed-cancellation")
                     return inv.value
+            if b == "pending-cancel-raises-app":
+                try:
+                    return await f
+                except asyncio.CancelledError:
+                    raise world.cancel_error()
             return await f
         return co()
+
+    def cancel_error(self):
+        from autobahn.wamp.exception import ApplicationError
+        self.run.probe("endpoint-turned-cancellation-into-application-error")
+        return ApplicationError("com.example.cancelled", "rolled back", 3, stage="commit")
 
     # --- actions ---------------------------------------------------------------------------------------------------------------
     def extra_actions(self):
@@ -275,7 +291,7 @@ class World(StackWorld):
     def resolve_user(self):
         ch = self.run.ch
         inv = self.user_futs.pop(ch.choose(len(self.user_futs), "which-future"))
-        if inv.behaviour in ("pending-ok", "coroutine-ok", "pending-absorbs-cancel"):
+        if inv.behaviour in ("pending-ok", "coroutine-ok", "pending-absorbs-cancel", "pending-cancel-raises-app"):
             self.fw.call(self, self.fw.resolve_future, inv.user_future, inv.value)
         else:
             self.fw.call(self, self.fw.reject_future, inv.user_future, RuntimeError("late failure %s" % inv.token))
@@ -381,7 +397,7 @@ class World(StackWorld):
             must_error = b in ("unserializable", "oversized", "raise-app", "raise-mapped", "raise-unmapped", "raise-unserializable-args",
                                "pending-fail", "coroutine-fail")
             may_error = inv.interrupts > 0 and b in ("pending-ok", "pending-fail", "pending-forever", "coroutine-ok", "coroutine-fail",
-                                                     "pending-absorbs-cancel") or \
+                                                     "pending-absorbs-cancel", "pending-cancel-raises-app") or \
                 (inv.interrupts > 0 and self.fwname == "aio")  # asyncio: the continuation runs one iteration later
             if tkind == "error" and inv.interrupts:
                 run.probe("interrupted-invocation-ended-in-error")
@@ -393,6 +409,11 @@ class World(StackWorld):
                 # an interrupted endpoint may end in the cancellation error (runtime_error without arguments); any
                 # other ERROR for an endpoint that returned a value is wrong
                 cancellation = m.error == "wamp.error.runtime_error" and not m.args and not m.kwargs
+                if b == "pending-cancel-raises-app" and m.error == "com.example.cancelled":
+                    # the endpoint's own error for the cancellation: it must arrive complete
+                    cancellation = inv.interrupts > 0
+                    if jsonish(list(m.args or [])) != ["rolled back", 3] or jsonish(m.kwargs or {}) != {"stage": "commit"}:
+                        run.violate("C10.error-when-due", "app-error-content-differs:after-interrupt", repr(m.marshal())[:200])
                 if not may_error or not cancellation:
                     run.violate("C10.error-when-due", "error-instead-of-yield:%s:%s" % (b, m.error), "invocation %d: %r %r" % (inv.id, m.args, m.kwargs))
             if tkind == "yield":
@@ -420,7 +441,7 @@ class World(StackWorld):
 
     def expected_yield(self, inv):
         b = inv.behaviour
-        if b in ("value", "pending-ok", "progress-then-value", "coroutine-ok", "pending-absorbs-cancel"):
+        if b in ("value", "pending-ok", "progress-then-value", "coroutine-ok", "pending-absorbs-cancel", "pending-cancel-raises-app"):
             return [jsonish(inv.value)], {}
         if b == "none":
             return [None], {}
